@@ -7,6 +7,7 @@ an independent model (qv.c09_model): the bytes, QModule.parse, the
 disassembler's text and the listing.  See docs/notes/C09.md."""
 import hashlib
 import sys
+import time
 
 from .. import impl, corpus
 from .. import c09_model as M
@@ -73,16 +74,18 @@ def compare_views(src, meta, binary, listing, st, run=True):
     except Exception as e:   # noqa
         return [Div('loader-exception', 'QModule.parse accepts the module',
                     f'{type(e).__name__}: {e}'[:200])]
-    # ---- L
-    lst = M.parse_listing(listing)
-    layout = M.Layout(lst, nparams)
+    # ---- L  (absent for the patched modules of the synth family)
+    lst = layout = None
+    if listing is not None:
+        lst = M.parse_listing(listing)
+        layout = M.Layout(lst, nparams)
 
     # (1) literal table
     m_lits = list(mod.literals)
     if m_lits != b_lits:
         i = _first_diff(m_lits, b_lits)
         divs.append(Div('literals-loader-vs-bytes', _short(b_lits[i:i + 2]), _short(m_lits[i:i + 2]), index=i))
-    if lst.literals != b_lits:
+    if lst is not None and lst.literals != b_lits:
         i = _first_diff(lst.literals, b_lits)
         divs.append(Div('literals-listing-vs-bytes', _short(lst.literals[i:i + 2]), _short(b_lits[i:i + 2])))
     st['literals'] += len(b_lits)
@@ -108,11 +111,12 @@ def compare_views(src, meta, binary, listing, st, run=True):
             i = _first_diff(flat, s_items)
             divs.append(Div('data-items-vs-source', f'{len(s_items)} items, at {i}: ' + _short(s_items[i:i + 3], 80),
                             f'{len(flat)} items, at {i}: ' + _short(flat[i:i + 3], 80)))
-    if len(lst.data_labels) != len(m_data):
+    if lst is not None and len(lst.data_labels) != len(m_data):
         divs.append(Div('data-parts-listing-vs-loader', len(lst.data_labels), len(m_data)))
     # globals
-    if not (mod.n_global_cells == b_glob == layout.n_global_cells):
-        divs.append(Div('global-cells', f'layout model {layout.n_global_cells}',
+    want_glob = layout.n_global_cells if layout is not None else meta.get('n_global_cells', b_glob)
+    if not (mod.n_global_cells == b_glob == want_glob):
+        divs.append(Div('global-cells', f'layout model {want_glob}',
                         f'loader {mod.n_global_cells}, bytes {b_glob}'))
     if bytes(mod.code) != b_code_bytes:
         divs.append(Div('code-loader-vs-bytes', len(b_code_bytes), len(mod.code)))
@@ -121,7 +125,12 @@ def compare_views(src, meta, binary, listing, st, run=True):
     b_code, err = M.decode_code(b_code_bytes)
     if err:
         divs.append(Div('code-undecodable', 'whole code section decodes', err))
-    l_code, problems = M.resolve_listing(lst, layout)
+    if lst is not None:
+        l_code, problems = M.resolve_listing(lst, layout)
+    else:
+        l_code, problems = [(a, mn, tuple(ops[i] if k != 'S' else (b_lits[ops[i]] if ops[i] < len(b_lits) else None)
+                                          for i, k in enumerate(M.ISA[mn][1])), None)
+                            for a, mn, ops in b_code], []
     for kind, det in problems[:5]:
         divs.append(Div(kind, 'every symbol of the listing resolves', det))
     st['instructions'] += len(b_code)
@@ -320,9 +329,10 @@ def new_stats():
 def judge(spec, cfg_idx, st, limit=600.0):
     """evaluate one program in the given configurations -> violation tuples"""
     src, meta = G.build(spec)
-    fam = spec[0] if spec[0] != 'sizes' else 'sizes-' + spec[1]
+    fam = spec[0] if spec[0] not in ('sizes', 'synth') else spec[0] + '-' + spec[1]
     meta = dict(meta)
-    meta['_src_data'] = M.source_data(src)
+    patch = meta.pop('patch', None)
+    meta['_src_data'] = M.source_data(src) if patch is None else meta.get('data_items')
     per = {}      # Div.key -> [Div, [config names]]
     ok_any = False
     codes = {}
@@ -344,12 +354,17 @@ def judge(spec, cfg_idx, st, limit=600.0):
             st['accepted_compilations'] += 1
             ok_any = True
             meta['_opt'] = o
-            divs = compare_views(src, meta, r.binary, r.listing, st)
-            codes[ci] = len(r.binary)
+            if patch is None:
+                divs = compare_views(src, meta, r.binary, r.listing, st)
+            else:
+                divs = compare_views(src, meta, M.patch_module(r.binary, **patch), None, st)
+            codes[(o, g)] = hashlib.sha1(_sections14(r.binary)[3] or b'').digest()
         for d in divs:
             ent = per.setdefault(d.key(), [d, []])
             ent[1].append(CFG_NAMES[ci])
     st['programs'] += 1
+    if (0, False) in codes and (2, False) in codes and codes[(0, False)] != codes[(2, False)]:
+        st['o0_o2_code_differs'] += 1
     if ok_any:
         st['_nontrivial'].add(hashlib.sha1(src.encode('utf8', 'replace')).hexdigest()[:16])
     viol = []
@@ -391,6 +406,18 @@ def warm_worker(chunk):
     return out
 
 
+def _sections14(binary):
+    """sections 1-4 of a module (section 5 is a gzip stream whose header
+    carries the wall-clock time, so two compilations never agree on it)"""
+    if binary is None:
+        return None
+    try:
+        secs, _ = M.split_sections(binary)
+    except M.FormatError:
+        return binary
+    return tuple(secs.get(i) for i in (1, 2, 3, 4))
+
+
 def conformance_worker(chunk):
     """cached and uncached parse must give the same bytes and listing"""
     bad = []
@@ -403,7 +430,7 @@ def conformance_worker(chunk):
             impl.parse_cache(False)
             b = impl.compile_text(src, o, g)
             n += 1
-            if (a.kind, a.binary, a.listing) != (b.kind, b.binary, b.listing):
+            if (a.kind, a.listing) != (b.kind, b.listing) or _sections14(a.binary) != _sections14(b.binary):
                 bad.append(spec)
     impl.parse_cache(True)
     return bad, n
@@ -430,9 +457,17 @@ def space(tier):
     fams.append(('datalayout', [(s, ALL6) for s in G.datalayout_specs(dl)],
                  {'item_alphabet': G.DATA_ITEMS, 'max_items': dl,
                   'splits': 'one statement; two statements; two parts; followed by other statements', 'chunk': 50}))
-    fams.append(('sizes', [(s, ALL6) for s in G.sizes_specs(tier)],
+    fams.append(('synth', [(s, [0, 5]) for s in G.synth_specs()],
+                 {'what': 'compiled one-statement modules whose literal table / DATA section / globals section is '
+                          'rewritten by the harness to boundary sizes; loader, disassembler and VM against the bytes',
+                  'n': G.SYNTH_N, 'configs': 'O0 and O2g (the rewritten sections do not depend on the configuration)',
+                  'chunk': 2}))
+    fams.append(('sizes', [(s, ALL6) for s in G.sizes_specs(tier)] + [(['sizes', 'codesize', 9000], [0, 2, 4])],
                  {'n': [0, 1, 255, 256, 257], 'kinds': 'literals, DATA items, DATA parts, labels, routines, '
                   'literal length, DATA item length, locals, parameters; frame/global cells up to 65536',
+                  'n_16bit': G.BIG_N, 'kinds_16bit': 'DATA items in one part / in parts of 4096, literal length, '
+                  'DATA item length (quoted, bare); code section of 72 KB (labels, routine and jump targets above '
+                  '65535; O0/O1/O2 without -g in quick, all six in thorough)',
                   'chunk': 1}))
     if tier == 'thorough':
         big = []
@@ -441,7 +476,7 @@ def space(tier):
                 if impl.CONFIGS[ci][1] and G.many_statements(s):
                     continue
                 big.append((s, [ci]))
-        fams.append(('big', big, {'n': G.BIG_N, 'one_configuration_per_work_item': True,
+        fams.append(('big', big, {'programs_list': [repr(x) for x in G.big_specs()], 'one_configuration_per_work_item': True,
                                   'g_configurations_skipped_above_statements': G.G_STATEMENT_CAP, 'chunk': 1}))
     return fams
 
@@ -495,9 +530,11 @@ def run(chk):
             chk.close()
             # largest programs first
             items = sorted(items, key=lambda it: -(it[0][2]))
+        t_fam = time.time()
         for viol, st in chk.pmap(worker, items, chunk=chunk):
             chk.add_violations(viol)
             chk.merge_stats(st)
+        d['wall_s'] = round(time.time() - t_fam, 1)
         for it in (items[0], items[len(items) // 2], items[-1]):
             src, _m = G.build(it[0])
             chk.sample({'family': name, 'spec': it[0], 'source': src[:400]})
